@@ -196,6 +196,13 @@ def build_templates(bdir, rnd, tier):
         T.append(("jose_jws_ver_io", [jws, NUL, pk], ["0", payload_b64_hex(jws)], tag))
         T.append(("jose_jws_sig", [{"payload": G.b64(payload)}, sig, k], [], tag))
         T.append(("jose_jws_sig_io", [{"payload": G.b64(payload)}, sig, k], [G.b64(payload).encode().hex()], tag))
+        if alg in ("HS256", "ES256", "RS256"):
+            # start objects that already carry a (possibly empty) list of signatures, or one flattened signature
+            T.append(("jose_jws_sig", [{"payload": G.b64(payload), "signatures": []}, sig, k], [], tag + ":empty-list"))
+            T.append(("jose_jws_sig", [dict(jws), sig, k], [], tag + ":second"))
+            if "signature" in jws:
+                gen = {"payload": jws["payload"], "signatures": [{m: jws[m] for m in ("protected", "header", "signature") if m in jws}]}
+                T.append(("jose_jws_sig", [gen, sig, k], [], tag + ":third"))
         if where == "protected":
             T.append(("encode_protected", [sig], [], tag))
 
@@ -241,6 +248,12 @@ def build_templates(bdir, rnd, tier):
         T.append(("jose_jwe_enc", [tmpl, NUL, ek], [payload.hex()], tag))
         T.append(("jose_jwe_enc_io", [tmpl, NUL, ek], [payload.hex()], tag))
         T.append(("jose_jwe_enc_jwk", [tmpl, NUL, ek, {}], [], tag))
+        if wrap in ("A128KW", "ECDH-ES+A128KW", "RSA-OAEP", "A128GCMKW"):
+            # a (possibly empty) recipients list is already there; a recipient template object / per-key array is given
+            T.append(("jose_jwe_enc_jwk", [dict(tmpl, recipients=[]), NUL, ek, {}], [], tag + ":empty-list"))
+            T.append(("jose_jwe_enc_jwk", [tmpl, {"header": {"kid": "r"}}, ek, {}], [], tag + ":rcp"))
+            T.append(("jose_jwe_enc_jwk", [tmpl, {"header": {"kid": "r"}}, [ek, ek], {}], [], tag + ":keyset"))
+            T.append(("jose_jwe_enc_jwk", [tmpl, [{"header": {"kid": "a"}}, {}], {"keys": [ek, ek]}, {}], [], tag + ":keyset-templates"))
         if wrap not in ("dir", "ECDH-ES"):
             T.append(("jose_jwe_enc_jwk", [tmpl, NUL, ek, G.oct_key(rnd, G.ENC_KEYLEN[enc])], [], tag))
         if c != "ERR" and not c.startswith("CRASH"):
@@ -747,6 +760,32 @@ def correspond(ctx):
         rule="valid JWS/JWE/JWK objects of every registered algorithm produced by the library, then single structured mutations (deletion, 8-way type substitution of every member at every depth incl. inside the encoded protected header, string edits (incl. values decoding to exactly 1024/1025/1040/1041 octets for every member that feeds a fixed buffer), nesting changes, NULL-able arguments of every type) on every argument position of the %d JSON-consuming exports + 2 internal glue functions; %d strata (function, argument, member, mutation kind), every stratum sampled; per call: ASan+UBSan(use-after-scope)+LSan, jansson allocator counted/poisoned, reference counts of all caller nodes compared; non-trivial = call completed with all counts intact" % (len(consumers), nstrata),
         dist=dist, normalize=normalize, env_extra=env_extra,
         exhaustive_subspaces=["every (function, argument position, member path, mutation kind) stratum of the template set has at least one case (except the strata of templates whose valid call aborts: those are reported and counted)"])
+    # the same calls WITHOUT the harness' extra references (every valid call and a tenth of the mutations): a node that
+    # the library releases once too often is then really freed, and the sanitizer reports the later access
+    rnp = random.Random(ctx["seed"] + 9)
+    np_cases = ["memnp" + c[3:] for c in cases if c.startswith("mem\t") and (info[c][1] == "valid" or rnp.random() < 0.1)]
+    for c, o in zip(np_cases, vlib.run_cases(hbin, np_cases, env_extra=env_extra)):
+        if o.startswith("CRASH"):
+            fn = c.split("\t")[1]
+            m = re.search(r"SAN \w+ ([\w-]+)", o)
+            rep.violation("unpinned:%s:%s" % (m.group(1) if m else "crash", fn),
+                          "%s on arguments owned by the caller alone (no extra references held by the harness): %s" % (fn, o[:300]),
+                          {"case": c[:3000], "implementation": o[:600]})
+        else:
+            pinned = RAW.get("mem" + c[5:], "")
+            vp, vn = re.search(r"V=(\w+)", pinned), re.search(r"V=(\w+)", o)
+            if vp and vn and vp.group(1) != vn.group(1):
+                fn = c.split("\t")[1]
+                rep.violation("unpinned:verdict-differs:" + fn,
+                              "%s returns %s when the harness holds extra references to the arguments and %s when the caller alone owns them: the call's behaviour depends on memory it has already released (the counting allocator poisons freed blocks)" % (fn, vp.group(1), vn.group(1)),
+                              {"case": c[:3000], "implementation": o[:300], "pinned": pinned[:300]})
+                continue
+            m = re.search(r"L=(\d+)", o)
+            if m and m.group(1) != "0":
+                fn = c.split("\t")[1]
+                rep.violation("unpinned:leak:" + fn, "%s leaves %s jansson block(s) allocated after everything was released" % (fn, m.group(1)), {"case": c[:3000], "implementation": o[:300]})
+    st["evaluations"] += len(np_cases)
+    st["dist"]["calls repeated without the harness' pins"] = len(np_cases)
     # valid templates must be valid: a refused valid call means the generator (not the library) is wrong
     bad = [c for c in cases if info[c][1] == "valid" and info[c][0] not in ("jose_b64_dec", "jose_b64_dec_load", "jose_b64_enc_dump", "jose_jwk_prm", "jose_jwk_eql", "zip_in_protected_header")
            and "V=fail" in RAW.get(c, "")]
